@@ -418,6 +418,18 @@ func registerTree(c *vk.Ctx) {
 			cr := resign(r.f.Keys.SignKey, b)
 			if !yield("F2", "F2:typed+child:"+label, headUpdateBytes([]string{cr.Id}, []*treechangeproto.RawTreeChangeWithId{raw, cr}, path)) {
 				stop = true
+				return false
+			}
+			// ... and together with a change that keeps its valid (attached) parents but names the typed variant, which
+			// may never attach, as its snapshot base; in both batch orders
+			sib := &treechangeproto.TreeChange{}
+			_ = sib.UnmarshalVT(inner)
+			sib.SnapshotBaseId = raw.Id
+			sb, _ := sib.MarshalVT()
+			sr := resign(r.f.Keys.SignKey, sb)
+			if !yield("F2", "F2:typed+based-on-it:"+label, headUpdateBytes([]string{sr.Id}, []*treechangeproto.RawTreeChangeWithId{raw, sr}, path)) ||
+				!yield("F2", "F2:based-on-it+typed:"+label, headUpdateBytes([]string{sr.Id}, []*treechangeproto.RawTreeChangeWithId{sr, raw}, path)) {
+				stop = true
 			}
 			return !stop
 		})
